@@ -466,8 +466,10 @@ class SciGW(SerialDevice):
                 sci_frame((self.device_id << 4) | 2, 0, 0, outcome[1]), arrival, ("bf", self.nmsg))
             self.answer_arrivals[outcome[1]] = act
         else:
-            # DALI receive error: error frame, code 7, error type 3
-            act = self.send_bytes(sci_frame((self.device_id << 4) | 7, 0, 0, 3),
+            # DALI receive error: error frame, code 7, error type 3 - or 5 (collision detected) when
+            # the answer was garbled by somebody else transmitting into it
+            etype = 5 if self.world.rng("sci-error-type", self.nmsg).random() < 0.3 else 3
+            act = self.send_bytes(sci_frame((self.device_id << 4) | 7, 0, 0, etype),
                                   arrival, ("bferr", self.nmsg))
             self.foreign_errors.append(act)      # error frames of any origin
         self._classify(rec, conf_arrival, act, 30000)
